@@ -243,6 +243,14 @@ def run_c07(ctx, replay=None):
         # the same lifecycle through the RPC handlers of a real in-process service (MonContactApi.tla)
         import contactapi
         contactapi.run_part(ctx)
+        if ctx.tier != "quick":
+            # beyond the listed properties: the contact-request manager (ContactManager.tla), conformance = drift only;
+            # the three clauses C07 implies (blocked incoming refused, never self, refusals append nothing) are verdicts
+            import contactmgr
+            try:
+                contactmgr.run_part(ctx)
+            except vf.Infra as e:
+                ctx.drift.append({"trace": "contact_manager", "info": "part skipped: %s" % str(e)[:300]})
     return finish(ctx, "C07")
 
 
